@@ -240,6 +240,8 @@ class Exec:
         self.uf = {}
         self.checked_obligations = 0
         self.unwind_failures = []
+        self.trace_calls = set()
+        self.time_budget = int(os.environ.get('GOSYM_TIME_BUDGET', '600'))
 
     # ---- types
     def T(self, tid):
@@ -414,7 +416,10 @@ class Exec:
             st.frames.append(fi)
         work = [st]
         self.results = []
+        t_start = time.time()
         while work:
+            if time.time() - t_start > self.time_budget:
+                raise Unsupported('time budget of %ds exceeded after %d finished paths (%d pending)' % (self.time_budget, len(self.results), len(work)))
             if len(self.results) + len(work) > self.max_paths:
                 raise Unsupported('path budget exceeded (%d)' % self.max_paths)
             s = work.pop()
@@ -990,6 +995,8 @@ class Exec:
                 if name.startswith(pre):
                     return self.call_stub(st, fr, name, args, ret_to, pos, ins, handler=h)
             raise Unsupported('call of %s (no body, no stub) at %s' % (name, pos))
+        if self.trace_calls and any(name.endswith(t) for t in self.trace_calls):
+            st.events.append(('call', name))
         nf = Frame(fn)
         for p, a in zip(fn['params'], args):
             nf.regs[p['n']] = a
